@@ -25,6 +25,9 @@ func (i *JsUnixTime) UnmarshalJSON(b []byte) error {
 		return ErrInvalidInt64Js
 	}
 
+	if b[0] != '"' || b[lb-1] != '"' {
+		return ErrInvalidInt64Js
+	}
 	strBuf := string(b[1 : lb-1])
 	t, err := strconv.Atoi(strBuf)
 	if err != nil {
@@ -54,6 +57,9 @@ func (i *JsNanoTime) UnmarshalJSON(b []byte) error {
 		return ErrInvalidInt64Js
 	}
 
+	if b[0] != '"' || b[lb-1] != '"' {
+		return ErrInvalidInt64Js
+	}
 	strBuf := string(b[1 : lb-1])
 	t, err := strconv.Atoi(strBuf)
 	if err != nil {
